@@ -9,14 +9,25 @@ import Acra.Spec.FTI
 namespace Acra.Drv
 open Acra.Py
 
-def natArgs (vs : List Val) : Option (List Nat) := vs.mapM Val.nat?
 
-def specFuncs : List Func := [
+def specFuncsFTI : List Func := [
   { name := "spec.iNetX.encode", run := fun vs =>
       match vs with
       | [a, b, c, d, e, f, .bytes p] => do
         let [a, b, c, d, e, f] ← natArgs [a, b, c, d, e, f] | none
         pure (.ok (.bytes (Spec.iNetX.encode a b c d e f p)))
+      | _ => none },
+  { name := "spec.IENA.encode", run := fun vs =>
+      match vs with
+      | [a, b, c, d, e, f, .bytes p] => do
+        let [a, b, c, d, e, f] ← natArgs [a, b, c, d, e, f] | none
+        pure (.ok (.bytes (Spec.IENA.encode a b c d e f p)))
+      | _ => none },
+  { name := "spec.IENAM.encodeParam", run := fun vs =>
+      match vs with
+      | [a, b, .bytes p] => do
+        let [a, b] ← natArgs [a, b] | none
+        pure (.ok (.bytes (Spec.IENAM.encodeParam a b p)))
       | _ => none }
 ]
 end Acra.Drv
